@@ -71,6 +71,15 @@ def build_carriers():
     out.append(b'fileinto :copy "a"; reject "b";')
     out.append(b'if envelope "a" "b" { vacation :seconds 1 "x"; }')
     out.append(b'if body :text "a" { fileinto :create "x"; } else { setflag "f"; }')
+    # real require commands in the script (string form, list form, several commands, duplicates, after other
+    # commands): what they name is loaded for the rest of the script, whatever S holds
+    out.append(b'require "fileinto"; require "envelope"; if envelope "a" "b" { fileinto "x"; }')
+    out.append(b'require ["copy"]; require ["fileinto", "copy"]; require "reject"; fileinto :copy "a"; reject "b";')
+    out.append(b'require "vacation"; require "vacation-seconds"; vacation :seconds 1 "x";')
+    out.append(b'require ["relational", "regex"]; require "body"; if anyof (header :count "gt" "a" "1", body :regex "x") { keep; }')
+    out.append(b'require "imap4flags"; keep; require "mailbox"; fileinto :create "x";')
+    out.append(b'require "fileinto"; require "fileinto"; fileinto "x";')
+    out.append(b'require "date"; if currentdate "a" "b" { keep; } require "variables"; set "a" "b"; if date "a" "b" "c" { stop; }')
     return out
 
 
